@@ -81,6 +81,8 @@ pub enum OpKind {
     Mapi,
     FilterMapi,
     Fold { update: bool, revert: bool },
+    /// incr_filter_mapi followed by incr_map: the second operator's input is another operator's output
+    ChainFilterThenMap,
 }
 
 type CallLog = Rc<RefCell<Vec<(Role, u8)>>>;
@@ -100,6 +102,13 @@ fn map_like_expected(op: OpKind, k: u8, v: &SV) -> Option<SV> {
         OpKind::FilterMapi => {
             if decide_pred(P_FILTERI, &[lit(k), v.clone()]) {
                 Some(app(F_MAPI, &[lit(k), v.clone()]))
+            } else {
+                None
+            }
+        }
+        OpKind::ChainFilterThenMap => {
+            if decide_pred(P_FILTERI, &[lit(k), v.clone()]) {
+                Some(app(F_MAP, &[app(F_MAPI, &[lit(k), v.clone()])]))
             } else {
                 None
             }
@@ -195,6 +204,22 @@ where
                     }),
                     None,
                 ),
+                OpKind::ChainFilterThenMap => {
+                    let first: Incr<M> = input.incr_filter_mapi(move |k: &u8, v: &SV| {
+                        if decide_pred(P_FILTERI, &[lit(*k), v.clone()]) {
+                            Some(app(F_MAPI, &[lit(*k), v.clone()]))
+                        } else {
+                            None
+                        }
+                    });
+                    Out::MapLike(
+                        first.incr_map(move |v: &SV| {
+                            l.borrow_mut().push((Role::F, 255));
+                            app(F_MAP, &[v.clone()])
+                        }),
+                        None,
+                    )
+                }
                 OpKind::Fold { update, revert } => {
                     let (l1, l2, l3) = (log.clone(), log.clone(), log.clone());
                     let add = move |acc: SV, k: &u8, v: &SV| {
@@ -233,6 +258,21 @@ where
             let mut dirty = false;
             let mut in_use = false;
             let mut seen: Option<B<SV>> = None;
+            if op == OpKind::ChainFilterThenMap {
+                // warm start (not counted): all keys present, output observed, one stabilise
+                for k in 0..self.keys {
+                    model.insert(k, fresh());
+                }
+                keep.input.set(M::from_b(&model));
+                if let Out::MapLike(n, o) = &mut keep.out {
+                    *o = Some(n.observe());
+                }
+                keep.state.stabilise();
+                in_use = true;
+                seen = Some(model.iter().filter(|(k, v)| decide_pred(P_FILTERI, &[lit(**k), (*v).clone()])).map(|(k, v)| (*k, app(F_MAPI, &[lit(*k), v.clone()]))).collect());
+                log.borrow_mut().clear();
+                op_log("(warm start: Refill, Observe, Stabilise)".into());
+            }
             for step in 0..=self.len {
                 #[derive(Clone, Debug)]
                 enum A {
@@ -256,17 +296,22 @@ where
                     A::Stabilise
                 } else {
                     let mut acts = vec![];
+                    let small = op == OpKind::ChainFilterThenMap;
                     for k in 0..self.keys {
                         acts.push(A::Insert(k));
                         if model.contains_key(&k) {
-                            acts.push(A::InsertEqual(k));
+                            if !small {
+                                acts.push(A::InsertEqual(k));
+                            }
                             acts.push(A::Remove(k));
                         }
                     }
-                    if !model.is_empty() {
+                    if !model.is_empty() && !small {
                         acts.push(A::Clear);
                     }
-                    acts.push(A::Refill);
+                    if !small {
+                        acts.push(A::Refill);
+                    }
                     acts.push(if observed { A::Unobserve } else { A::Observe });
                     if dirty {
                         acts.push(A::Stabilise);
@@ -369,10 +414,19 @@ where
                         }
                         // ---- C17: work proportional to the change
                         let calls = log.borrow().clone();
-                        let allowed: BTreeSet<u8> = match &seen {
-                            None => model.keys().copied().collect(),
-                            Some(s) => diff_keys(s, &model),
+                        // the input of the logged operator: the var's map, or (chain) the first operator's output
+                        let cur_in: B<SV> = if op == OpKind::ChainFilterThenMap {
+                            model.iter().filter(|(k, v)| decide_pred(P_FILTERI, &[lit(**k), (*v).clone()])).map(|(k, v)| (*k, app(F_MAPI, &[lit(*k), v.clone()]))).collect()
+                        } else {
+                            model.clone()
                         };
+                        let allowed: BTreeSet<u8> = match &seen {
+                            None => cur_in.keys().copied().collect(),
+                            Some(s) => diff_keys(s, &cur_in),
+                        };
+                        if seen.as_ref().map_or(false, |s| diff_keys(s, &cur_in).is_empty()) && op == OpKind::ChainFilterThenMap {
+                            cover("upstream-edit-left-intermediate-map-unchanged");
+                        }
                         let initial = seen.is_none();
                         let mut per: BTreeMap<(Role, u8), u32> = BTreeMap::new();
                         for (role, k) in &calls {
@@ -396,7 +450,7 @@ where
                         if !calls.is_empty() && !initial {
                             cover("incremental-update-ran-user-function");
                         }
-                        seen = Some(model.clone());
+                        seen = Some(cur_in);
                     }
                 }
             }
